@@ -60,6 +60,7 @@ non-negative configured times and samples -/
 structure Start (orc : Oracle) (inst : Instance) (s0 : State) : Prop where
   init : initOKB inst s0 = true
   rest : restB s0 = true
+  placed : placedB inst s0 = true
   nonneg : nonnegB inst = true
   samples : ∀ sid k, 0 ≤ orc sid k
 
